@@ -262,6 +262,16 @@ fn main() {
                 println!("{}", serde_json::to_string_pretty(&o).unwrap());
             }
         }
+        "candidates" => {
+            // print the shrink candidates of a replay file (one JSON array); used by the driver to minimise
+            // violations whose class is a process death, one candidate per child process
+            let path = args.get(2).unwrap_or_else(|| die("file"));
+            let txt = std::fs::read_to_string(path).unwrap_or_else(|e| die(&format!("{}: {}", path, e)));
+            let j: serde_json::Value = serde_json::from_str(&txt).unwrap_or_else(|e| die(&format!("{}: {}", path, e)));
+            let prop = find_prop(j["property"].as_str().unwrap_or_else(|| die("replay file has no property")));
+            let c = (prop.shrink)(&j["case"]);
+            println!("{}", serde_json::to_string(&c).unwrap());
+        }
         "case" => {
             let prop = find_prop(arg(&args, "--prop").unwrap_or_else(|| die("--prop")));
             let seed: u64 = arg(&args, "--seed").and_then(|s| s.parse().ok()).unwrap_or(1);
